@@ -99,7 +99,7 @@ def _():
     raises(Exception, ensures=GHOST.failed == 1)
 
 
-@extern("FailureManager.recover")
+@extern("FailureManager.recover", final=True)  # abstract summary of every failure manager (ghost counters); DummyFailureManager.recover refines its third clause
 def _(self: FailureManager, job: Job, step: Step, exception: Exc):
     assigns(self.n_recover, self.recover_failed)
     ensures(self.n_recover == old(self.n_recover) + 1 and self.recover_failed == old(self.recover_failed))
